@@ -89,8 +89,12 @@ func main() {
 	if v, err := strconv.Atoi(os.Getenv("VERIF_C14_LINKS")); err == nil {
 		links = v
 	}
-	if os.Getenv("VERIF_C14_ONLY") == "stops" {
-		nBase, directed = 0, false
+	nOoo, nInproc := run.N(16, 240), run.N(12, 160)
+	switch os.Getenv("VERIF_C14_ONLY") {
+	case "stops":
+		nBase, directed, nOoo, nInproc = 0, false, 0, 0
+	case "cluster":
+		nBase, directed, nStops = 0, false, 0
 	}
 	bisweep.SyntheticSubsets(run)
 	depth := 2
@@ -99,5 +103,6 @@ func main() {
 	}
 	bisweep.Explore(run, bisweep.Options{Prop: "C14", NBase: nBase, Depth: depth, DeepPct: 12, Workers: 6,
 		Driver: d, Factory: bisweep.NewStandalone, Directed: directed, NStops: nStops, StopLinks: links})
+	bisweep.ClusterScenarios(run, bisweep.ClusterOptions{NOutOfOrder: nOoo, NInProcess: nInproc, Workers: 8, Driver: d})
 	run.Exit()
 }
